@@ -278,6 +278,20 @@ class ExprMixin:
         self.payload[ref] = PyDictP(items)
         return VDict(ref)
 
+    def e_Yield(self, node, fr):
+        """`yield` of a @contextmanager generator: the with-body (user code) runs here. Two continuations:
+        resume normally, or the body's exception is thrown at the yield (DESIGN.md 2.4)."""
+        spec = (fr.contract.ghost or {}).get("yield") or {}
+        for path in spec.get("havoc", []):
+            self.havoc_heap_path(path, fr, {})
+        for label, expr in spec.get("assume", []):
+            self.assume(self.spec_bool(expr, fr, label))
+        which = self.dec.choose(2)
+        self.covered_sites.add("yield-resume" if which == 0 else "yield-throw")
+        if which == 1:
+            raise RaiseSig("UserError", "yield", False)
+        return NONE
+
     def e_JoinedStr(self, node, fr):
         # f-strings occur only in exception messages / __repr__: opaque string
         s = VStr.var(self.new_ref("fstr"))
@@ -615,6 +629,13 @@ class ExprMixin:
     def index_special(self, base, idx, node, fr):
         if isinstance(base, VFunc) and base.kind == "class":
             return base
+        if isinstance(base, VObj) and base.cls in CLASS_MODULE and base.cls != "OptionsDict":
+            q = self.method_qualname(base.cls, "__getitem__")
+            if q:
+                return self.call_pkg(q, [base, idx], {}, node, fr)
+        if isinstance(base, VObj) and base.cls == "OptionsDict" and isinstance(idx, VStr) and idx.kind == "lit" and idx.a in SCHEMA["OptionsDict"]:
+            self.assumption_log.add("OptionsDict[k] == OptionsDict.<k> for the documented option keys")
+            return self.get_field(base, idx.a, self.use_old)
         if isinstance(base, VOpt):
             self.safe_or_raise(z3.Not(base.isnone), "TypeError", node, fr, "subscript")
             return self.index(base.some, idx, node, fr)
